@@ -2,14 +2,16 @@
 (* Trace validation for C19: replays the recorded push_key / push_index calls *)
 (* of the real ValuePointerRef on the DPointer machine and compares the four  *)
 (* logged observations with the specification after every step.  A `reset`    *)
-(* event starts a new path from the origin.  Monitor style: every line is     *)
+(* event starts a new path from the origin; a `pop` event is the return of   *)
+(* the callee that pushed the last step (the caller's location is observed    *)
+(* again), so that a run is a walk over a tree of locations.  Monitor style: every line is     *)
 (* consumed, mismatching lines are collected in `viol`.                       *)
 EXTENDS DPointer, Json, IOUtils, TLC
 
 Rec == ndJsonDeserialize(IOEnv.TRACE)
 
-VARIABLES l, nviol, viol, npush
-tvars == <<chain, path, l, nviol, viol, npush>>
+VARIABLES l, nviol, viol, npush, npop
+tvars == <<chain, path, l, nviol, viol, npush, npop>>
 
 ObsAgrees(e, c, p) ==
     /\ e.owned  = p                 \* to_owned lists exactly the pushed steps, in order
@@ -21,7 +23,7 @@ ObsAgrees(e, c, p) ==
     /\ e.first  = FirstField(c)
     /\ e.last   = LastField(c)
 
-TraceInit == /\ Init /\ l = 1 /\ nviol = 0 /\ viol = <<>> /\ npush = 0
+TraceInit == /\ Init /\ l = 1 /\ nviol = 0 /\ viol = <<>> /\ npush = 0 /\ npop = 0
 
 Record(bad) == /\ nviol' = IF bad THEN nviol + 1 ELSE nviol
                /\ viol'  = IF bad /\ Len(viol) < 10 THEN Append(viol, l) ELSE viol
@@ -32,16 +34,22 @@ TraceNext ==
     /\ LET e == Rec[l] IN
          \/ /\ e.e = "reset"
             /\ chain' = Origin /\ path' = <<>>
-            /\ npush' = npush
+            /\ npush' = npush /\ npop' = npop
             /\ Record(~ObsAgrees(e, chain', path'))
          \/ /\ e.e = "push"
             /\ IF e.step.t = "key" THEN PushKey(e.step.k) ELSE PushIndex(e.step.i)
-            /\ npush' = npush + 1
+            /\ npush' = npush + 1 /\ npop' = npop
             /\ Record(~ObsAgrees(e, chain', path'))
+         \* the callee returned: the caller's location is observed again and must be what it was before the push,
+         \* whatever was pushed (and observed) beyond it in the meantime
+         \/ /\ e.e = "pop"
+            /\ IF Len(path) > 0 THEN Return ELSE UNCHANGED <<chain, path>>
+            /\ npush' = npush /\ npop' = npop + 1
+            /\ Record(Len(path) = 0 \/ ~ObsAgrees(e, chain', path'))
 
 TraceSpec == TraceInit /\ [][TraceNext]_tvars
 
 Final == l = Len(Rec) + 1
-Report == Final => PrintT(<<"RESULT", ToJson([lines |-> Len(Rec), nviol |-> nviol, viol |-> viol, pushes |-> npush])>>)
+Report == Final => PrintT(<<"RESULT", ToJson([lines |-> Len(Rec), nviol |-> nviol, viol |-> viol, pushes |-> npush, pops |-> npop])>>)
 TraceAccepted == TLCGet("stats").diameter = Len(Rec) + 1
 =============================================================================
